@@ -21,6 +21,9 @@ CasesFor(k) ==
   CASE k = "split" -> {[op |-> "split", n |-> n] : n \in -40..40}
     [] k = "nearint" -> {[op |-> "nearint", n |-> n, tol |-> t] : n \in NearNs, t \in Tols}
     [] k = "snapscale" -> {[op |-> "snapscale", small |-> sm, n |-> n, tol |-> t] : sm \in BOOLEAN, n \in ScaleNs, t \in Tols}
+    \* values over 1024 around zero on both sides of each tolerance; clamp of lattice values into lattice intervals
+    [] k = "zeroclamp" -> {[op |-> "maybezero", n |-> n, tol |-> t] : n \in {-2048, -12, -11, -10, -9, -2, -1, 0, 1, 2, 9, 10, 11, 12, 512, 3000}, t \in Tols}
+                          \cup {[op |-> "clamp", n |-> n, lo |-> lo, hi |-> lo + w] : n \in -6..6, lo \in {-5, -1, 0, 2}, w \in {0, 1, 4}}
     [] k = "align" -> {[op |-> "align", x |-> x] : x \in AlignXs}
     [] k = "snapgrid" -> {[op |-> "snapgrid", x0 |-> x0, sp |-> sp, r |-> r, o |-> o, tol |-> t] : x0 \in SG.x0, sp \in SG.sp, r \in SG.r, o \in SG.o, t \in {<<1, 100>>}}
     [] k = "snapaffine" -> {[op |-> "snapaffine", sx |-> sx, tx |-> tx, sy |-> sy, ty |-> ty, rot |-> rot, tol |-> t, stol |-> st] :
@@ -35,7 +38,7 @@ CasesFor(k) ==
                         \* input transforms: every invertible integer matrix with entries in -1..2 (scales, mirrors, rotations, shears in the x row only,
                         \* in the y row only, in both), two translations
                         T \in {<<a, b, t[1], d, e, t[2]>> : a \in -1..2, b \in -1..2, d \in -1..2, e \in -1..2, t \in {<<0, 0>>, <<2, 1>>}} \ {x \in [1..6 -> -1..2] : x[1] * x[5] - x[2] * x[4] = 0}}
-Kinds == {"split", "nearint", "snapscale", "align", "snapgrid", "snapaffine", "rws", "affpts", "axis", "bin1d", "poly"}
+Kinds == {"zeroclamp", "split", "nearint", "snapscale", "align", "snapgrid", "snapaffine", "rws", "affpts", "axis", "bin1d", "poly"}
 PolyValid(c) == (c.kind = "affine" /\ c.nn \in {3, 6}) \/ (c.kind = "bilinear" /\ c.nn \in {4, 8}) \/ (c.kind = "biquad" /\ c.nn \in {9, 12})
 
 VARIABLE c
